@@ -45,6 +45,8 @@ structure St where
   idx : Nat := 0                         -- next instruction of τ to execute; `τ.length` = ran to the end
   status : Status := .unload
   pokes : List (Addr × Nat) := []        -- (address, low byte written) of every POKETEXT of the current command
+  execd : List (Nat × Nat) := []         -- ghost (never read by the model): (trace position, byte at its pc at the
+                                         -- moment it was executed) of every instruction executed so far, in order
 
 inductive Out
   | ok | none | err
@@ -112,7 +114,7 @@ def enableEntry (s : St) : St :=
 def singleStep (s : St) : St :=
   match pc s with
   | none => s
-  | some p => if s.code p == INT3 then s else { s with idx := s.idx + 1 }
+  | some p => if s.code p == INT3 then s else { s with idx := s.idx + 1, execd := s.execd ++ [(s.idx, s.code p)] }
 
 /-- `step_over_breakpoint` -/
 def stepOverBreakpoint (s : St) : St :=
@@ -129,15 +131,22 @@ def stepOverBreakpoint (s : St) : St :=
         { s3 with active := put s3.active b3 }
       else s
 
-/-- first index `j ≥ i` whose instruction byte is an INT3, or `τ.length` -/
-def firstTrap (code : Code) (τ : List Addr) (i : Nat) : Nat :=
+/-- first index `j ≥ i` with `p τ[j]`, or `τ.length` if there is none -/
+def firstFrom (p : Addr → Bool) (τ : List Addr) (i : Nat) : Nat :=
   if h : i < τ.length then
-    if code τ[i] == INT3 then i else firstTrap code τ (i+1)
+    if p τ[i] then i else firstFrom p τ (i+1)
   else τ.length
 termination_by τ.length - i
 
+/-- first index `j ≥ i` whose instruction byte is an INT3, or `τ.length` -/
+def firstTrap (code : Code) (τ : List Addr) (i : Nat) : Nat :=
+  firstFrom (fun a => code a == INT3) τ i
+
 /-- `PTRACE_CONT` + `waitpid`: run until a trap or the end of the program -/
-def run (s : St) : St := { s with idx := firstTrap s.code s.τ s.idx }
+def run (s : St) : St :=
+  let j := firstTrap s.code s.τ s.idx
+  { s with idx := j,
+           execd := s.execd ++ (List.range' s.idx (j - s.idx)).map fun k => (k, s.code (s.τ.getD k 0)) }
 
 /-- what `StopReason::DebugeeExit` does to the registry: `disable_all_breakpoints` (the pokes fail, the process is
 gone); user and entry breakpoints go back to the uninit list under their global address, the rest is dropped -/
